@@ -13,14 +13,17 @@ Inductive seg :=
 | SDyn (t : token)                        (* html-escaped value of the Go expression [formatted_code t] *)
 | SDynQ (t : token)                       (* the same, followed by the double quote that closes an attribute value *)
 | SRaw (t : token)                        (* the value of the expression as it is: `!=`, `! ... #{}` *)
-| SBlock (stmt : bytes) (body : list seg). (* the Go statement [stmt { body }]: body rendered when / as often as Go runs it *)
+| SBlock (stmt : bytes) (body : list seg)  (* the Go statement [stmt { body }]: body rendered when / as often as Go runs it *)
+| SChildren                               (* = @children : __children.Render(ctx, __buf) *)
+| SRender (expr : bytes) (block : option (list seg)).
+                                          (* = @render expr : expr.Render(ctx, __buf), or with the nested content as children *)
 
 (** the meaning of a segment list under a valuation of the Go expressions *)
 (** (blocks have no meaning without Go's semantics of the statement: they contribute nothing here) *)
 Definition eval_segs (rho : bytes -> bytes) (l : list seg) : bytes :=
   List.concat (map (fun s => match s with SLit h => h | SDyn t => html_escape (rho (formatted_code t))
                              | SDynQ t => html_escape (rho (formatted_code t)) ++ [34]
-                             | SRaw t => rho (formatted_code t) | SBlock _ _ => [] end) l).
+                             | SRaw t => rho (formatted_code t) | _ => [] end) l).
 
 (** [ind] is the indentation of the Go code at this point of the template body *)
 Definition Lo (ind : nat) : wlocal := mkWL ind true true false.     (* a string literal is open *)
@@ -51,6 +54,20 @@ Definition attr_dyn_code (ind : nat) (t : token) : bytes :=
 Definition block_code (ind : nat) (stmt body_code : bytes) (mb : bool) : bytes :=
   tabs ind ++ stmt ++ lit " {" ++ [10] ++ body_code ++ (if mb then close_text (Lo (S ind)) else []) ++ tabs ind ++ lit "}" ++ [10].
 
+Definition children_code (ind : nat) : bytes :=
+  tabs ind ++ lit "if __err = __children.Render(ctx, __buf); __err != nil { return }" ++ [10].
+
+Definition render_code (ind : nat) (expr : bytes) : bytes :=
+  tabs ind ++ lit "if __err = " ++ expr ++ lit ".Render(ctx, __buf); __err != nil { return }" ++ [10].
+
+(** `= @render expr` with nested content: the content becomes a TemplateFunc, passed to the callee as its children *)
+Definition render_block_code (ind : nat) (v expr body_code : bytes) (mb : bool) : bytes :=
+  tabs ind ++ v ++ lit " := goht.TemplateFunc(func(ctx context.Context, __w io.Writer) (__err error) {" ++ [10] ++
+  List.concat (map (fun line => tabs (S ind) ++ line) render_body_pre) ++
+  body_code ++ (if mb then close_text (Lo (S ind)) else []) ++
+  List.concat (map (fun line => tabs ind ++ line) render_body_post) ++
+  tabs ind ++ lit "if __err = " ++ expr ++ lit ".Render(goht.PushChildren(ctx, " ++ v ++ lit "), __buf); __err != nil { return }" ++ [10].
+
 Inductive denotes : nat -> bool -> bool -> bytes -> list seg -> Prop :=
 | d_nil ind m : denotes ind m m [] []
 | d_lit ind p h rest segs m' : reads_as p h -> denotes ind true m' rest segs -> denotes ind true m' (p ++ rest) (SLit h :: segs)
@@ -59,6 +76,12 @@ Inductive denotes : nat -> bool -> bool -> bytes -> list seg -> Prop :=
 | d_dyn ind v t rest segs m' : denotes ind false m' rest segs -> denotes ind false m' (dyn_code ind v t ++ rest) (SDyn t :: segs)
 | d_attr ind t rest segs m' : denotes ind false m' rest segs -> denotes ind false m' (attr_dyn_code ind t ++ rest) (SDynQ t :: segs)
 | d_raw ind v t rest segs m' : denotes ind false m' rest segs -> denotes ind false m' (raw_code ind v t ++ rest) (SRaw t :: segs)
+| d_children ind rest segs m' : denotes ind false m' rest segs -> denotes ind false m' (children_code ind ++ rest) (SChildren :: segs)
+| d_render ind expr rest segs m' : denotes ind false m' rest segs ->
+    denotes ind false m' (render_code ind expr ++ rest) (SRender expr None :: segs)
+| d_render_block ind v expr body_code body mb rest segs m' :
+    denotes (S ind) false mb body_code body -> denotes ind false m' rest segs ->
+    denotes ind false m' (render_block_code ind v expr body_code mb ++ rest) (SRender expr (Some body) :: segs)
 | d_block ind stmt body_code body mb rest segs m' :
     denotes (S ind) false mb body_code body -> denotes ind false m' rest segs ->
     denotes ind false m' (block_code ind stmt body_code mb ++ rest) (SBlock stmt body :: segs).
@@ -67,7 +90,8 @@ Lemma denotes_app ind m1 m2 m3 c1 s1 c2 s2 : denotes ind m1 m2 c1 s1 -> denotes 
 Proof.
   intro H1. revert m3 c2 s2.
   induction H1 as [ind m|ind p h rest segs m' Hr _ IH|ind rest segs m' _ IH|ind rest segs m' _ IH|ind v t rest segs m' _ IH
-                  |ind t rest segs m' _ IH|ind v t rest segs m' _ IH|ind stmt bc body mb rest segs m' Hb _ _ IH]; intros m3 c2 s2 H2; cbn [app].
+                  |ind t rest segs m' _ IH|ind v t rest segs m' _ IH|ind rest segs m' _ IH|ind expr rest segs m' _ IH
+                  |ind v expr bc body mb rest segs m' Hb _ _ IH|ind stmt bc body mb rest segs m' Hb _ _ IH]; intros m3 c2 s2 H2; cbn [app].
   - exact H2.
   - rewrite <- app_assoc. apply d_lit; [exact Hr|apply IH; exact H2].
   - rewrite <- app_assoc. apply d_open. apply IH; exact H2.
@@ -75,6 +99,9 @@ Proof.
   - rewrite <- app_assoc. apply d_dyn. apply IH; exact H2.
   - rewrite <- app_assoc. apply d_attr. apply IH; exact H2.
   - rewrite <- app_assoc. apply d_raw. apply IH; exact H2.
+  - rewrite <- app_assoc. apply d_children. apply IH; exact H2.
+  - rewrite <- app_assoc. apply d_render. apply IH; exact H2.
+  - rewrite <- app_assoc. apply d_render_block; [exact Hb|apply IH; exact H2].
   - rewrite <- app_assoc. apply d_block; [exact Hb|apply IH; exact H2].
 Qed.
 
@@ -331,6 +358,8 @@ Fixpoint dyn_node (n : node) : Prop :=
     | KComment o _ => t_lit o <> [] /\ bytes_ok (t_lit o)
     | KSilent o _ _ => block_stmt o /\ ch <> [] /\ all ch
     | KUnescape _ _ => Forall raw_child ch
+    | KChildren _ => True
+    | KRender _ _ => all ch
     | _ => False
     end
   end.
@@ -351,6 +380,8 @@ Fixpoint segs_of (n : node) : list seg :=
     | KComment o _ => [SLit (lit "<!--" ++ html_escape (t_lit o) ++ lit "-->" ++ [10])]
     | KSilent o _ _ => [SBlock (go_trim_space (t_lit o)) (kids ch)]
     | KUnescape _ _ => List.concat (map raw_segs ch)
+    | KChildren _ => [SChildren]
+    | KRender o _ => [SRender (t_lit o) (match ch with [] => None | _ => Some (kids ch) end)]
     | _ => []
     end
   end.
@@ -457,6 +488,19 @@ Proof.
   destruct (render_attrs_run sm ind (e_attrs d) true _ Hat L3) as (m' & R4).
   exists m'. change (SLit (id_class_html d) :: attrs_segs d) with ([SLit (id_class_html d)] ++ attrs_segs d).
   eapply Run_trans; eassumption.
+Qed.
+
+Lemma after_var_facts st : w_err (fst st) = None ->
+  w_err (fst (after_var st)) = None /\ snd (after_var st) = snd st /\ txt (after_var st) = txt st.
+Proof. destruct st as [[o n l c a e] loc]. cbn [fst w_err]. intros ->. unfold after_var, get_var_name, txt. cbn. auto. Qed.
+
+Lemma fold_lines_txt (lines : list bytes) : forall st, quiet st ->
+  quiet (fold_left (fun s line => tw_wri line s) lines st) /\ snd (fold_left (fun s line => tw_wri line s) lines st) = snd st /\
+  txt (fold_left (fun s line => tw_wri line s) lines st) = txt st ++ List.concat (map (fun line => tabs (wl_indent (snd st)) ++ line) lines).
+Proof.
+  induction lines as [|x l IH]; intros st Q; [cbn; rewrite app_nil_r; auto|].
+  cbn [fold_left map List.concat]. destruct (tw_wri_quiet x st Q) as [Q1 L1]. destruct (IH _ Q1) as (Q2 & L2 & T2).
+  split; [exact Q2|]. split; [rewrite L2; exact L1|]. rewrite T2, L1, (tw_wri_txt x st Q), <- !app_assoc. reflexivity.
 Qed.
 
 Lemma raw_list_run sm ind (l : list node) : Forall raw_child l -> forall nc m st, MSu ind m st ->
@@ -591,6 +635,67 @@ Proof.
     + cbn [fst snd]. split; [exact Hfinal|reflexivity].
   - (* script *)
     cbn [fst snd]. exists false. split; [apply dyn_run; exact H|reflexivity].
+  - (* = @render *)
+    apply dyn_all_eq in Hs.
+    destruct ch as [|c0 ch0]; cbn [fst snd].
+    + (* without nested content *)
+      destruct (tw_wri_run ind m (lit "if __err = ") st H) as [M1 T1]. set (st1 := tw_wri (lit "if __err = ") st) in *.
+      assert (Q1 : quiet st1) by (destruct M1 as [A B]; split; [exact A|rewrite B; reflexivity]).
+      destruct (tw_write_add_quiet sm (t_lit origin) origin st1 Q1) as [Q3 L3]. pose proof (tw_write_add_txt sm (t_lit origin) origin st1 Q1) as T3.
+      set (st3 := tw_write_add sm (t_lit origin) origin st1) in *.
+      destruct (tw_wr_quiet (lit ".Render(ctx, __buf); __err != nil { return }" ++ [10]) st3 Q3) as [Q4 L4].
+      pose proof (tw_wr_txt (lit ".Render(ctx, __buf); __err != nil { return }" ++ [10]) st3 Q3) as T4.
+      exists false. split; [|reflexivity]. split; [split; [exact (proj1 Q4)|rewrite L4, L3; exact (proj2 M1)]|].
+      exists ((if m then close_text (Lo ind) else []) ++ render_code ind (t_lit origin)). split.
+      * rewrite T4, T3, T1. unfold render_code. rewrite <- !app_assoc. reflexivity.
+      * assert (Dr : denotes ind false false (render_code ind (t_lit origin)) [SRender (t_lit origin) None]).
+        { rewrite <- (app_nil_r (render_code _ _)). apply d_render. constructor. }
+        destruct m; [apply d_close; exact Dr|exact Dr].
+    + (* with nested content *)
+      destruct H as [He Hl]. destruct (after_var_facts st He) as (E1 & L1 & T1).
+      set (v := var_name_of st).
+      assert (M1 : MS ind m (after_var st)) by (split; [exact E1|rewrite L1; exact Hl]).
+      match goal with |- context [tw_wri ?x (after_var st)] => destruct (tw_wri_run ind m x _ M1) as [M2 T2]; set (st2 := tw_wri x (after_var st)) in * end.
+      assert (E2 : snd st2 = Lc ind) by exact (proj2 M2).
+      assert (Q3 : quiet (set_local st2 (indent_local (snd st2) 1))).
+      { split; [exact (proj1 M2)|]. cbn [set_local snd]. rewrite E2. reflexivity. }
+      destruct (fold_lines_txt render_body_pre _ Q3) as (Q4 & L4 & T4). rewrite txt_set_local in T4.
+      set (st3 := fold_left (fun s line => tw_wri line s) render_body_pre (set_local st2 (indent_local (snd st2) 1))) in *.
+      assert (I3 : snd st3 = Lc (S ind)).
+      { rewrite L4. cbn [set_local snd]. rewrite E2. unfold indent_local, Lc. cbn [wl_indent wl_static wl_errh wl_unesc]. rewrite Nat.add_1_r. reflexivity. }
+      assert (M3 : MS (S ind) false st3) by (split; [exact (proj1 Q4)|exact I3]).
+      destruct (list_run sm (c0 :: ch0) IH Hs (S ind) false st3 M3) as (mb & [E5 L5] & body_code & T5 & D5).
+      set (st4 := emit_list sm (c0 :: ch0) false st3) in *.
+      assert (Hclose : w_err (fst (tw_close st4)) = None /\ txt (tw_close st4) = txt st4 ++ (if mb then close_text (Lo (S ind)) else [])).
+      { unfold tw_close, close_if_static. rewrite L5. destruct mb; cbn [loc_of Lo Lc wl_static].
+        - destruct (close_string_literal_txt st4 E5) as ([Ec _] & _ & _ & Tc). rewrite L5 in Tc. split; [exact Ec|exact Tc].
+        - split; [exact E5|rewrite app_nil_r; reflexivity]. }
+      destruct Hclose as [E6 T6].
+      assert (Q6 : quiet (set_local (tw_close st4) (snd st2))) by (split; [exact E6|cbn [set_local snd]; rewrite E2; reflexivity]).
+      destruct (fold_lines_txt render_body_post _ Q6) as (Q7 & L7 & T7). rewrite txt_set_local in T7.
+      set (st6 := fold_left (fun s line => tw_wri line s) render_body_post (set_local (tw_close st4) (snd st2))) in *.
+      assert (I6 : snd st6 = Lc ind) by (rewrite L7; cbn [set_local snd]; exact E2).
+      assert (M6 : MS ind false st6) by (split; [exact (proj1 Q7)|exact I6]).
+      destruct (tw_wri_run ind false (lit "if __err = ") st6 M6) as [M8 T8]. set (st7 := tw_wri (lit "if __err = ") st6) in *.
+      assert (Q8 : quiet st7) by (destruct M8 as [A B]; split; [exact A|rewrite B; reflexivity]).
+      destruct (tw_write_add_quiet sm (t_lit origin) origin st7 Q8) as [Q9 L9]. pose proof (tw_write_add_txt sm (t_lit origin) origin st7 Q8) as T9.
+      set (st9 := tw_write_add sm (t_lit origin) origin st7) in *.
+      match goal with |- context [tw_wr ?x st9] => destruct (tw_wr_quiet x st9 Q9) as [Q10 L10]; pose proof (tw_wr_txt x st9 Q9) as T10 end.
+      exists false. split; [|reflexivity]. split; [split; [exact (proj1 Q10)|rewrite L10, L9; exact (proj2 M8)]|].
+      exists ((if m then close_text (Lo ind) else []) ++ render_block_code ind v (t_lit origin) body_code mb). split.
+      * rewrite T10, T9, T8, T7, T6, T5, T4, T2, T1. cbn [set_local snd]. rewrite E2. cbn [Lc wl_indent indent_local].
+        unfold render_block_code. rewrite Nat.add_1_r. cbn [app]. rewrite <- !app_assoc. reflexivity.
+      * assert (Dr : denotes ind false false (render_block_code ind v (t_lit origin) body_code mb) [SRender (t_lit origin) (Some (segs_list (c0 :: ch0)))]).
+        { rewrite <- (app_nil_r (render_block_code _ _ _ _ _)). apply d_render_block; [exact D5|constructor]. }
+        destruct m; [apply d_close; exact Dr|exact Dr].
+  - (* = @children *)
+    cbn [fst snd].
+    match goal with |- context [tw_wri ?x st] => destruct (tw_wri_run ind m x st H) as [M1 T1] end.
+    exists false. split; [|reflexivity]. split; [exact M1|].
+    exists ((if m then close_text (Lo ind) else []) ++ children_code ind). split; [rewrite T1; unfold children_code; rewrite <- ?app_assoc; reflexivity|].
+    assert (Dc : denotes ind false false (children_code ind) [SChildren]).
+    { rewrite <- (app_nil_r (children_code _)). apply d_children. constructor. }
+    destruct m; [apply d_close; exact Dc|exact Dc].
 Qed.
 
 (** * a whole template with a body of this fragment *)
